@@ -776,6 +776,10 @@ def compute_kdf_context(
     l1: int,
     l2: int,
 ) -> bytes:
+    for idx in (l0, l1, l2):
+        if not -(1 << 31) <= idx < 1 << 31:
+            raise ValueError(f"Key index {idx} cannot be represented as a signed 32-bit integer")
+
     return b"".join(
         [
             key_guid.bytes_le,
